@@ -602,6 +602,29 @@ fn enum_large(_tier: Tier, f: &mut dyn FnMut(SeqCase) -> bool) {
             }
         }
     }
+    // two common unique items (anchors) around unrelated stretches of 48-200 items on both sides, and a
+    // third anchor behind another such stretch
+    for gap in [48usize, 60, 200] {
+        let cyc = |base: u32, n: usize| -> Vec<u32> { (0..n).map(|i| base + (i % 3) as u32).collect() };
+        let mut a = vec![1u32];
+        a.extend(cyc(10, gap));
+        a.push(2);
+        a.extend(cyc(30, gap + 5));
+        a.push(3);
+        let mut b = vec![1u32];
+        b.extend(cyc(20, gap));
+        b.push(2);
+        b.extend(cyc(40, gap + 1));
+        b.push(3);
+        for mode in [0u8, 1, 2, 3] {
+            let mut c = SeqCase::full(1, a.clone(), b.clone());
+            c.mode = mode;
+            c.k = Some(1);
+            if !f(c) {
+                return;
+            }
+        }
+    }
     // ONE NoFinishHook value used for two diffs
     for alg in 0..3u8 {
         let mut c = SeqCase::full(alg, vec![1, 2, 3, 4, 5], vec![1, 9, 3, 4, 6, 7]);
@@ -653,7 +676,7 @@ impl Prop for C08 {
             Stage {
                 name: "large",
                 kind: StageKind::Enumerate {
-                    scope: "6 fixed large inputs (LCS 600x600 and 530x520, Myers/Patience 2500 vs 2400 over 6 letters and 3000 distinct items with a swap) x 4 stacks, and 6 diffs with thousands of hook calls (beyond 4096) x {bare, Compact, Compact<Replace>}; success log + 6 sampled failing call indices; one NoFinishHook value used for two diffs and a call by hand".into(),
+                    scope: "6 fixed large inputs (LCS 600x600 and 530x520, Myers/Patience 2500 vs 2400 over 6 letters and 3000 distinct items with a swap) x 4 stacks, and 6 diffs with thousands of hook calls (beyond 4096) x {bare, Compact, Compact<Replace>}; success log + 6 sampled failing call indices; one NoFinishHook value used for two diffs and a call by hand; Patience over three anchors separated by unrelated stretches of 48 / 60 / 200 items x 4 stacks".into(),
                     exhaustive: true,
                     gen: enum_large,
                 },
